@@ -130,10 +130,26 @@ pub fn judge(out: &mut RunOut, sub: u64, s: &Signed, f: &Fault, tag: &str, prop:
                         cov[q] = true;
                     }
                 }
-                let covered = |_p: usize| cov.iter().all(|c| *c);
-                let probe_pos = 0usize;
-                if !covered(probe_pos) {
-                    fp = format!("box-hash-uncovered-bytes:{}", s.fmt.name());
+                if !cov.iter().all(|c| *c) {
+                    // ... and was the asset as signed covered completely?  Only then is this the
+                    // known class "bytes added outside every box"; a box map that already leaves
+                    // bytes of the signed asset out is something else
+                    let clean_covered = box_map_of(s.fmt, &s.bytes)
+                        .map(|bm0| {
+                            let mut c0 = vec![false; s.bytes.len()];
+                            for (_, st, l, _) in &bm0 {
+                                for q in (*st as usize)..((*st + *l) as usize).min(s.bytes.len()) {
+                                    c0[q] = true;
+                                }
+                            }
+                            c0.iter().all(|c| *c)
+                        })
+                        .unwrap_or(false);
+                    fp = if clean_covered {
+                        format!("box-hash-uncovered-bytes:{}", s.fmt.name())
+                    } else {
+                        format!("box-map-of-signed-asset-incomplete:{}:{}", s.fmt.name(), f.kind())
+                    };
                 }
             }
         }
